@@ -525,6 +525,8 @@ class C07Monitor:
         if not rel <= bound:
             self.v("null_forcing", i, mrec.idx, {"what": "F does not follow dF/dt = L F",
                                                  "solver_steps": r["steps"],
+                                                 "rigid_rotation_call_rad": world.rotation_over(
+                                                     flow, path, op["t0"], op["t1"]),
                                                  "atol_estimate_over_bound": _atol_est(r["F_in"], Fref) / bound,
                                                  "rel": rel, "bound": bound})
 
